@@ -8,6 +8,18 @@ CHECKS = [
   'note': 'Trusted: CPython, z3 5.1, the symx proxies (SInt over z3 Int; dict/set lookups become == forks), '
           'witness replay on the unmodified module. Outside: more than K calls; non-singleton touched sets.',
   'design_ref': 'DESIGN.md section 4, C20'},
+ {'id': 'C12',
+  'text': 'K1: Merkle.branch_length executed on a symbolic integer; one z3 query shows 2^(r-1) < n <= 2^r for every '
+          'n in [1, 2^62] (falls back to concrete boundary evaluation, labelled as such, if the implementation uses '
+          'floating point).  K2: branch_and_root/root/root_from_proof/level/branch_and_root_from_level on n <= 17 '
+          '(quick) / 65 (thorough) fully symbolic leaves with the hash an uninterpreted function: fold-back, '
+          'root-by-definition, branch length, TSC markers proved by congruence for every index.  K3: MerkleCache '
+          'initialise/query/truncate/query sequences over a symbolic source, all lengths/indices solver-enumerated, '
+          'each result equal to the from-scratch one.',
+  'note': 'Trusted: CPython, z3, symx proxies and the hash-as-uninterpreted-function model (equalities hold for every '
+          'hash function); native replay of witnesses with real double_sha256. Outside: n above the bounds, longer '
+          'cache operation sequences.',
+  'design_ref': 'DESIGN.md section 4, C12'},
 ]
 _TODO = 'check not built yet in this revision (planned, see DESIGN.md section 4); no claim is made'
-NOT_APPLICABLE = [{'property_id': f'C{n:02d}', 'reason': _TODO} for n in range(1, 20)]
+NOT_APPLICABLE = [{'property_id': f'C{n:02d}', 'reason': _TODO} for n in range(1, 20) if n not in (12,)]
